@@ -323,6 +323,93 @@ def register(gen, T):
         return "".join(out)
 
 
+    @gen("GlobalState")
+    def global_state():
+        """Inventory of everything that could carry information from one compilation to the next inside a process
+        (or from outside the process into a compilation) in the compiler crates:
+          * `statics`        every `static` item (module level or inside a function): (file, name, `static` | `static mut`,
+                             declared type, interior mutability in the type?)
+          * `stateMacros`    thread_local! / lazy_static! / once_cell style macros
+          * `syncTypeUses`   every mention of a type that only makes sense for shared or lazily initialised state:
+                             OnceLock, OnceCell, LazyLock, LazyCell, Lazy<, Mutex, RwLock, Condvar, Atomic*, std::sync::Once,
+                             UnsafeCell, Arc<   (Rc / RefCell / Cell live inside one value and are NOT listed)
+          * `leaks`          Box::leak / mem::forget / ManuallyDrop / `unsafe` blocks (ways to build a global by hand)
+          * `ambient`        reads of the process environment: env::, std::time, Instant, SystemTime, process::, thread::,
+                             rand / getrandom / RandomState / DefaultHasher, current_dir, temp_dir, panic hooks, pointer
+                             addresses turned into integers
+          * `externalDependencies`  non-path [dependencies] of every Cargo.toml of the workspace (code the inventory
+                             cannot see)
+        All of them are expected to be empty for the compiler crates."""
+        from rustsrc import lean_str
+        files = []
+        for crate in CRATES:
+            base = os.path.join(T.REPO, crate)
+            for dp, _, fns in os.walk(base):
+                for fn in sorted(fns):
+                    if fn.endswith(".rs") and not fn.endswith("tests.rs") and fn != "test_support.rs":
+                        files.append(os.path.relpath(os.path.join(dp, fn), T.REPO))
+        files.sort()
+        INTERIOR = re.compile(r'\b(?:OnceLock|OnceCell|LazyLock|LazyCell|Lazy|Mutex|RwLock|Condvar|Once|Atomic[A-Z][A-Za-z0-9]*|'
+                              r'Cell|RefCell|UnsafeCell|SyncUnsafeCell|LocalKey)\b')
+        statics, macros, sync_uses, leaks, ambient = [], [], [], [], []
+        for f in files:
+            text = strip_literals(T.src(f))
+            for m in re.finditer(r"(?<![A-Za-z0-9_'])static\s+(mut\s+)?([A-Za-z_][A-Za-z0-9_]*)\s*:\s*([^=;]+?)\s*[=;]", text):
+                ty = re.sub(r'\s+', ' ', m.group(3)).strip()
+                statics.append((f, m.group(2), "static mut" if m.group(1) else "static", ty, bool(INTERIOR.search(ty))))
+            for m in re.finditer(r'\b(thread_local|lazy_static|static_init|global_counter|once_cell\s*::\s*[a-z_:]*)\s*!', text):
+                macros.append((f, re.sub(r'\s+', '', m.group(1))))
+            for m in re.finditer(r'\b(OnceLock|OnceCell|LazyLock|LazyCell|Lazy\s*<|Mutex|RwLock|Condvar|Atomic(?:Bool|Usize|Isize|Ptr|U8|U16|U32|U64|I8|I16|I32|I64)|'
+                                 r'sync\s*::\s*Once|UnsafeCell|SyncUnsafeCell|Arc\s*<|once_cell|lazy_static)\b', text):
+                sync_uses.append((f, re.sub(r'\s+', '', m.group(1))))
+            for m in re.finditer(r'\b(Box\s*::\s*leak|mem\s*::\s*forget|ManuallyDrop|unsafe\s*(?:\{|fn\b|impl\b)|extern\s+"")', text):
+                leaks.append((f, re.sub(r'\s+', ' ', m.group(1))))
+            for m in re.finditer(r'\b(env\s*::\s*[a-z_]+|env\s*!|option_env\s*!|std\s*::\s*time|Instant|SystemTime|UNIX_EPOCH|process\s*::\s*[a-z_A-Z]+|'
+                                 r'thread\s*::\s*[a-z_A-Z]+|rayon|thread_rng|rand\s*::|getrandom|RandomState|DefaultHasher|BuildHasherDefault|'
+                                 r'current_dir|temp_dir|set_hook|take_hook|any\s*::\s*[A-Za-z_]+|as_ptr\s*\(\s*\)\s*as\s*[ui]size|'
+                                 r'as\s*\*\s*const\s+[A-Za-z_<>() ]+\s+as\s+[ui]size)\b', text):
+                ambient.append((f, re.sub(r'\s+', '', m.group(1))))
+        # Cargo manifests: every dependency must be a path inside the workspace
+        ext = []
+        manifests = ["Cargo.toml"] + [os.path.join(c.split("/")[0], "Cargo.toml") for c in CRATES if c != "src"]
+        for man in sorted(set(manifests)):
+            path = os.path.join(T.REPO, man)
+            if not os.path.exists(path):
+                ext.append((man, "<manifest missing>"))
+                continue
+            section = None
+            for line in open(path).read().splitlines():
+                line = line.split("#")[0].rstrip()
+                sm = re.match(r'\s*\[([^\]]+)\]', line)
+                if sm:
+                    section = sm.group(1).strip()
+                    if re.match(r'(target\..*\.)?(build-)?dependencies\.', section) :
+                        ext.append((man, section))
+                    continue
+                if section and re.fullmatch(r'(target\..*\.)?(build-)?dependencies', section) and "=" in line:
+                    if not re.search(r'\bpath\s*=', line):
+                        ext.append((man, re.sub(r'\s+', ' ', line.strip())))
+            if os.path.exists(os.path.join(os.path.dirname(path), "build.rs")):
+                ext.append((man, "build.rs"))
+        out = [T.header("GlobalState", ["every non-test .rs file of the compiler crates", "every Cargo.toml of the compiler crates"])]
+        out.append("/-- a `static` item: file, name, `static` or `static mut`, declared type, does the type have interior mutability -/\n")
+        out.append("structure Static where\n  file : String\n  name : String\n  kind : String\n  ty : String\n  interior : Bool\n"
+                   "  deriving DecidableEq, Repr\n\n")
+        out.append("def statics : List Static := [" + ", ".join(
+            f"⟨{lean_str(a)}, {lean_str(b)}, {lean_str(c)}, {lean_str(d)}, {str(e).lower()}⟩" for a, b, c, d, e in sorted(set(statics))) + "]\n\n")
+
+        def pairs(name, doc, rows):
+            out.append(f"/-- {doc} -/\ndef {name} : List (String × String) := [" +
+                       ", ".join(f"({lean_str(a)}, {lean_str(b)})" for a, b in sorted(set(rows))) + "]\n\n")
+        pairs("stateMacros", "thread_local! / lazy_static! style macros", macros)
+        pairs("syncTypeUses", "mentions of shared-state types (OnceLock, Mutex, Atomic*, Arc<, ...)", sync_uses)
+        pairs("leaks", "Box::leak, mem::forget, ManuallyDrop, unsafe: ways to build process-wide state by hand", leaks)
+        pairs("ambient", "reads of the environment of the process: env, time, process, threads, randomness, addresses", ambient)
+        pairs("externalDependencies", "dependencies that are not path dependencies of the workspace, and build scripts", ext)
+        out.append(f"/-- number of source files scanned -/\ndef scannedFiles : Nat := {len(files)}\n")
+        out.append(T.footer("GlobalState"))
+        return "".join(out)
+
     @gen("EnumRange")
     def enum_range():
         """The pieces of typer/src/typer/scopes.rs Context::end_enum that Model/EnumRange.lean transcribes:
